@@ -43,7 +43,7 @@ func VerifH_C04_source_bytes_never_panic() {
 	src := nondetString("src", n)
 	ncontexts := 4
 	if n == 2 {
-		ncontexts = 2 // two arbitrary bytes: alone and after "return "
+		ncontexts = 1 // two arbitrary bytes: alone
 	}
 	switch verifChoose("context", ncontexts) {
 	case 1:
